@@ -1,38 +1,99 @@
-"""C14 extension R14.23 (D66, repaired).
+"""C14 extension (R14.23): the complete form of R14.22's obligation (D66, repaired
+in /repo by "fix: decide forward/reflected operator order the way CPython does").
 
-R14.23: the complete form of R14.22's obligation.  CPython tries the reflected
-method first iff type(y) is a proper subclass of type(x) and
-lookup(type(y), rop) is not lookup(type(x), rop) (typeobject.c
-method_is_overloaded), and it never tries the reflected method when
-type(x) is type(y).  vm_utils._overrides instead asks "does a class in front of
-x's class in y's MRO define rop?", which differs whenever a class *behind* x's
-class in y's MRO that is not an ancestor of x's class provides rop:
+CPython tries the reflected method first iff type(y) is a proper subclass of
+type(x) and lookup(type(y), rop) is not lookup(type(x), rop) (typeobject.c
+method_is_overloaded), and it never tries the reflected method at all when
+type(x) is type(y) (SLOT1BINFULL's do_other).  Two divergences were found with
+this rule and repaired:
 
-  class A:                       class A:
-    def __sub__(s, o): return "s"   def __rsub__(s, o): return 1
-  class B(A): pass               class X(A):
-  class M:                         def __sub__(s, o): return "s"
-    def __rsub__(s, o): return [1] class Z(A):
-  class D(B, M): pass              def __rsub__(s, o): return [1]
-  r = A() - D()                  class Y(X, Z): pass
-  r.append(2)                    r = X() - Y(); r.append(2)
+  * vm_utils._overrides asked "does a class in *front* of x's class in y's MRO
+    define rop?", which differs whenever a class *behind* x's class in y's MRO
+    that is not an ancestor of x's class provides rop:
 
-CPython: both r are lists (M.__rsub__ / Z.__rsub__ is called first); pytype
-(HEAD) reports `attribute-error: No attribute 'append' on str` on the clean
-statement and misses `r.upper()`.  Second divergence (single_method_pairs):
-`class C: def __rsub__(self, o): return 1` / `C() - C()` is a TypeError in
-CPython (same type: the reflected method is not tried), pytype reports nothing.
+      class A:                         class A:
+        def __sub__(s, o): return "s"    def __rsub__(s, o): return 1
+      class B(A): pass                 class X(A):
+      class M:                           def __sub__(s, o): return "s"
+        def __rsub__(s, o): return [1] class Z(A):
+      class D(B, M): pass                def __rsub__(s, o): return [1]
+      r = A() - D()                    class Y(X, Z): pass
+      r.append(2)                      r = X() - Y(); r.append(2)
 
-Suggested fix: in _overrides compare the providers -
-  first class of subcls.mro defining attr  vs  first class of supercls.mro
-  defining attr; return True iff the former exists and differs from the latter
-and in _call_binop_on_bindings drop the reflected option when
-xval.data.cls == yval.data.cls.
+    CPython: both r are lists (M.__rsub__ / Z.__rsub__ is called first); pytype
+    reported `attribute-error: No attribute 'append' on str`.
+  * `class C: def __rsub__(self, o): return 1` / `C() - C()` is a TypeError in
+    CPython; pytype tried C.__rsub__ and reported nothing.
+
+The rule evaluates the *option list* of `_call_binop_on_bindings` - its path
+conditions (`rname`, the comparison of the operands' classes, the call of the
+`_overrides` predicate with everything it calls) are interpreted on the class
+model of rules/c14_overrides.py - for every ordered pair of classes of the
+chain, mixin-in-front, mixin-behind (D(B, M)) and diamond (Y(X, Z)) worlds,
+eager and lazy members, and compares the *sequence* of methods pytype looks up
+with the sequence of methods the host CPython calls when every method returns
+NotImplemented; pairs in which only one of the two methods exists are compared
+too.
 """
 from sa.core import rule
 from rules import c14_overrides as O
 
+VU = O.VU
 
-@rule("R14.23", "C14", floor=32)
+
+@rule("R14.23", "C14", floor=128)
 def r14_23(ctx):
   O.evaluate(ctx, {**O.WORLDS, **O.PENDING_WORLDS}, single_method_pairs=True)
+
+
+VARIANTS = [
+    # D66, first half: the scan that stops at the left operand's class
+    {"name": "revert-D66-overrides-scan-stops-at-left-class", "rule": "R14.23", "file": VU,
+     "expect": "fire",
+     "old": ("    provider = _provider(subcls, attr)\n" + O._OV_RET),
+     "new": ("    for cls in subcls.mro:\n"
+             "      if cls == supercls:\n"
+             "        break\n"
+             "      if isinstance(cls, mixin.LazyMembers):\n"
+             "        cls.load_lazy_attribute(attr)\n"
+             "      if (\n"
+             "          isinstance(cls, abstract.SimpleValue)\n"
+             "          and attr in cls.members\n"
+             "          and cls.members[attr].bindings\n"
+             "      ):\n"
+             "        return True\n")},
+    # D66, second half: the reflected option for operands of one class
+    {"name": "revert-D66-reflected-option-for-same-class", "rule": "R14.23", "file": VU,
+     "expect": "fire",
+     "old": "  if rname and xval.data.cls != yval.data.cls:\n", "new": "  if rname:\n"},
+    # the provider of the left class is looked up behind the left class only
+    {"name": "left-provider-skips-own-class", "rule": "R14.23", "file": VU, "expect": "fire",
+     "old": O._OV_RET,
+     "new": ("    inherited = [c for c in supercls.mro[1:] if _provider(c, attr) == c]\n"
+             "    return provider is not None and provider not in inherited\n")},
+    # the classes are compared through their names' MRO position instead of identity
+    {"name": "same-class-test-by-mro-length", "rule": "R14.23", "file": VU, "expect": "fire",
+     "old": "  if rname and xval.data.cls != yval.data.cls:\n",
+     "new": "  if rname and len(xval.data.cls.mro) != len(yval.data.cls.mro):\n"},
+    # twins
+    {"name": "twin-same-class-guard-clause", "rule": "R14.23", "file": VU, "expect": "silent",
+     "old": ("  if rname and xval.data.cls != yval.data.cls:\n"
+             "    # Python does not try the reflected method if the operands have the same\n"
+             "    # type.\n"
+             "    options.append((yval, xval, rname))\n"
+             "    if _overrides(yval.data.cls, xval.data.cls, rname):\n"),
+     "new": ("  same_type = xval.data.cls == yval.data.cls\n"
+             "  if rname and not same_type:\n"
+             "    options.append((yval, xval, rname))\n"
+             "    if _overrides(yval.data.cls, xval.data.cls, rname):\n")},
+    {"name": "twin-overrides-early-false-for-same-class", "rule": "R14.23", "file": VU,
+     "expect": "silent",
+     "old": "    provider = _provider(subcls, attr)\n" + O._OV_RET,
+     "new": ("    if subcls == supercls:\n"
+             "      return False\n"
+             "    provider = _provider(subcls, attr)\n" + O._OV_RET)},
+    {"name": "twin-benign-C14-r1", "rule": "R14.23", "patch": "benign/C14-r1/patch.diff",
+     "expect": "silent"},
+    {"name": "seeded-C14-r3m1", "rule": "R14.23", "patch": "seeded/C14-r3m1/patch.diff",
+     "expect": "fire"},
+]
